@@ -296,6 +296,38 @@ def decline_harness(npre):
 
 
 # ---------------------------------------------------------------------------
+# (d') decline through the complete handler, from an arbitrary repository
+def handler_decline_harness(shape, mode):
+    def h(ctx):
+        pr = PR(1, SRC, shape[0])
+        refs = GF.handler_refs(shape, pr, mode)
+        repo, host, out = GF.scenario_handle_pr(
+            ctx, shape, pr, len(refs) + 1, mode, lambda byp, host: [], no_octopus=True,
+            pr_status='DECLINED')
+        left = sorted(r for r in repo.remote if r.startswith('w/') and r.endswith('/' + SRC))
+        other = [o for o in repo.remote_ops if o['kind'] in ('update', 'delete')
+                 and not (o['ref'].startswith('w/') and o['ref'].endswith('/' + SRC))]
+        bad = []
+        if left:
+            bad.append('C19 declined parent: integration branches left on the remote')
+        if other:
+            bad.append('C19 declining the parent touched other refs')
+        if out != 'PullRequestDeclined':
+            bad.append('C19 declined parent with integration branches answered %s' % out)
+        d = None
+        if bad:
+            r, m = ctx.sat_model()
+            v = symgit.Violation(bad[0], m, list(repo.oplog))
+            v.world = repo.concretize(m)
+            v.conflicts = repo.conflicts_taken
+            v.differs = repo.differs_taken
+            d = GF.cex_data('handle_pr', shape, [pr], v, mode=mode, no_octopus=True, pr_status='DECLINED')
+        ctx.stats.obligations += 3
+        return dict(out=out, bad=bad, data=d)
+    return h
+
+
+# ---------------------------------------------------------------------------
 # (c) redirection
 def redirection(rep):
     import bert_e.workflow.gitwaterflow as gwf
@@ -385,6 +417,10 @@ def redirection(rep):
 
 def replay(data):
     common.install_common_stubs()
+    if data.get('scenario') == 'handle_pr':
+        common.install_common_stubs(common.named_render)
+        bad, out = GF.replay_on_real_git(data)
+        return data['label'] in bad or out != 'PullRequestDeclined'
     if data.get('part') == 'prs':
         return pr_concrete(data['npre'], data['vals'])
     return True
@@ -442,5 +478,28 @@ def check(rep):
                                     True, '%r' % r))
         if n == npre and not any(r['out'] == 'PullRequestDeclined' for _, r in results):
             rep.error('vacuity: decline never cleaned anything')
+    # (d') the complete handler on a declined pull request
+    import bert_e.workflow.gitwaterflow as gwf
+    common.install_common_stubs(common.named_render)
+    gwf.setup({})
+    for mode in ('noqueue', 'queue'):
+        results, st = common.explore_parallel(handler_decline_harness(SHAPE[:2], mode), split_depth=4,
+                                              max_depth=3000)
+        rep.add_stats(st, 'declined parent through the whole handler (%s mode)' % mode)
+        if not any(r['out'] == 'PullRequestDeclined' for _, r in results):
+            rep.error('vacuity: declined parent never cleaned up (%s)' % mode)
+        seen = set()
+        for _, r in results:
+            for b in r['bad']:
+                if b in seen:
+                    continue
+                seen.add(b)
+                ok = False
+                if r['data'] and not (r['data']['conflicts'] or r['data']['differs']):
+                    bad, out = GF.replay_on_real_git(r['data'])
+                    ok = (b in bad) or (b.startswith('C19 declined parent with') and out != 'PullRequestDeclined')
+                rep.cexs.append(Cex('C19', 'decline (whole handler): ' + b.replace('answered NothingToDo', 'answered <other>'),
+                                    r['data'] or dict(part='decline-handler'), ok, '%s [%s mode]' % (b, mode)))
+    common.install_common_stubs()
     redirection(rep)
     rep.sample(dict(part='integration pull requests', names=wnames(), targets=SHAPE))
